@@ -7,12 +7,20 @@ from hed.models.hed_string import HedString
 from hed.validator.util.string_util import StringValidator
 from hed.validator.util.char_util import CharValidator
 from hed.validator.util.group_util import GroupValidator
+from hed.validator.util.tag_util import TagValidator
+from hed.models.hed_tag import HedTag
 from hed.errors.error_reporter import ErrorHandler
 from hed.errors.error_types import ValidationErrors
 
 chx.install()
 astpatch.is_to_eq(HedString, "split_into_groups")
 _SV = StringValidator()
+_TV = TagValidator()
+try:
+    from vp import chx_hash
+    chx_hash.install()
+except ImportError:
+    pass
 
 
 # ------------------------------------------------------------------ K1 delimiters / parentheses
@@ -178,6 +186,60 @@ def tag_level(n1: int, t1: bool, g1: bool, n2: int, t2: bool, g2: bool, n3: int,
     return got == sorted(want)
 
 
+# ------------------------------------------------------------------ K4 per-tag rules on the mini schema
+def _err_codes(issues):
+    out = []
+    for i in issues:
+        if i["severity"] == 1 and i["code"] not in out:
+            out.append(i["code"])
+    return sorted(out)
+
+
+def tag_rules(s: str, allow_placeholders: bool) -> bool:
+    """
+    pre: 1 <= len(s) <= R.N(3)
+    pre: R.scell(s, "/#:")
+    pre: R.ascii_printable(s)
+    pre: "," not in s and "(" not in s and ")" not in s and s[0] != " " and s[-1] != " "
+    post: _
+    """
+    from vp.mini import MINI
+    from models import mini_rules as MR
+    tag = HedTag(s, MINI)
+    issues = list(tag._calculate_to_canonical_forms(MINI))
+    if _err_codes(issues) == []:
+        issues += _TV.run_individual_tag_validators(tag, allow_placeholders=allow_placeholders)
+    got = _err_codes(issues)
+    prefix, rest = MR.split_namespace(s)
+    if prefix != "":
+        return got == ["TAG_NAMESPACE_PREFIX_INVALID"]          # no library is loaded under any prefix
+    node, rem = MR.resolve(s)
+    if node is None:
+        first = s[:s.find("/")] if "/" in s else s
+        if MR.resolve(first)[0] is None:
+            return got == ["TAG_INVALID"]                        # unknown tag
+        return got == ["TAG_EXTENSION_INVALID"]                  # an extension term is itself a schema node
+    want = []
+    dont_care = []
+    if rem == "":
+        if MR.has_attr(node, "requireChild"):
+            want.append("TAG_REQUIRES_CHILD")                    # leaf use of a node that requires a child
+    else:
+        if "#" in rem and not allow_placeholders:
+            want.append("PLACEHOLDER_INVALID")                   # stray placeholder
+        if not MR.takes_value(node):
+            if not MR.extension_allowed(node):
+                if "#" in rem:
+                    if "PLACEHOLDER_INVALID" not in want:
+                        want.append("PLACEHOLDER_INVALID")
+                else:
+                    want.append("TAG_EXTENSION_INVALID")         # forbidden extension
+            if MR.has_attr(node, "requireChild"):
+                dont_care.append("TAG_REQUIRES_CHILD")           # extension under a requireChild node: not stated
+    got = [c for c in got if c not in dont_care]
+    return got == sorted(want)
+
+
 # ------------------------------------------------------------------ K6 issue kind -> published code
 KINDS = [ValidationErrors.NO_VALID_TAG_FOUND, ValidationErrors.INVALID_PARENT_NODE, ValidationErrors.HED_TAG_GROUP_TAG,
          ValidationErrors.HED_TOP_LEVEL_TAG, ValidationErrors.TAG_EXTENSION_INVALID, ValidationErrors.TAG_REQUIRES_CHILD]
@@ -238,6 +300,26 @@ HARNESSES = [
              "temporal/duration tag",
         oracle="inline reading of the HED placement rules", stubs=["stub tags exposing exactly the attributes the kernel reads"],
         outside="which schema tags carry the attributes (bundled schemas)"),
+    R.H("tag_rules",
+        ["hed.validator.util.tag_util.TagValidator.run_individual_tag_validators",
+         "hed.validator.util.tag_util.TagValidator.check_tag_exists_in_schema",
+         "hed.validator.util.tag_util.TagValidator.check_for_placeholder",
+         "hed.validator.util.tag_util.TagValidator.check_tag_requires_child",
+         "hed.schema.hed_schema.HedSchema._find_tag_entry", "hed.schema.hed_schema.HedSchema._find_tag_subfunction",
+         "hed.schema.hed_schema.HedSchema._validate_remaining_terms"],
+        quick=R.tier(cells=R.str_cells(3, split1_from=2, split2_from=3, nclass=4, minlen=1), env={"VP_N": 3},
+                     timeout=240, bound="every printable-ASCII tag text s (no ',()', no outer blanks), len <= 3, "
+                                        "with and without placeholders allowed, on the mini schema"),
+        thorough=R.tier(cells=R.str_cells(4, split1_from=2, split2_from=3, nclass=4, minlen=1), env={"VP_N": 4},
+                        timeout=1500, path_timeout=60, bound="same with len <= 4"),
+        what="error codes of tag identification + the individual tag validators equal the reference: unknown tag "
+             "TAG_INVALID, extension term that is a schema node / extension under a non-extensible node "
+             "TAG_EXTENSION_INVALID, leaf requireChild TAG_REQUIRES_CHILD, '#' without placeholders "
+             "PLACEHOLDER_INVALID, foreign prefix TAG_NAMESPACE_PREFIX_INVALID, otherwise none",
+        oracle="models/mini_rules.py (tree read from the MediaWiki text)",
+        stubs=["mini schema (25-node tag tree) loaded by the real loader", "chx ASCII casefold accelerator",
+               "chx_hash: builtin hash() without CrossHair's contract fork"],
+        outside="the bundled vocabularies; value/unit text (C11); tags longer than the bound"),
     R.H("published_code", ["hed.errors.error_reporter.ErrorHandler.format_error"],
         quick=R.tier(timeout=120, bound="6 issue kinds x any override code text of 1-3 chars / no override"),
         what="the reported code is the override when given, else the kind's published HED code; severity error",
